@@ -34,6 +34,8 @@ pub(crate) fn parse_time<R: Read>(scanner: &mut Scanner<R>) -> Result<Time, Erro
         time_str.push(scanner.cur);
         scanner.read()?;
         while !scanner.is_eof && scanner.is_digit() {
+            #[cfg(feature = "verif-hooks")]
+            crate::haystack::verif_hooks::tick(crate::haystack::verif_hooks::SITE_LOOP);
             time_str.push(scanner.cur);
             scanner.advance()?
         }
@@ -177,6 +179,8 @@ fn parse_time_zone_name<R: Read>(scanner: &mut Scanner<R>) -> Result<String, Err
     let mut name = vec![scanner.expect_and_consume_any_in_range(&(b'A'..=b'Z'))?];
 
     while !scanner.is_eof && (scanner.is_alpha_num() || scanner.is_any_of("_/+-")) {
+        #[cfg(feature = "verif-hooks")]
+        crate::haystack::verif_hooks::tick(crate::haystack::verif_hooks::SITE_LOOP);
         name.push(scanner.cur);
         scanner.advance()?
     }
